@@ -539,12 +539,14 @@ where
                     err.insert(Value::Null, ctx);
                     value
                 }
-                Err(error) => {
+                Err(error @ crate::compiler::ExpressionError::Error { .. }) => {
                     ok.insert(default.clone(), ctx);
                     let value = Value::from(error.to_string());
                     err.insert(value.clone(), ctx);
                     value
                 }
+                // `return` and `abort` are not errors to capture: they keep propagating
+                Err(other) => return Err(other),
             },
         };
 
